@@ -10,6 +10,8 @@ ENGINES = [
      "kind_free_text": "bounded exhaustive enumeration runtime: rank<->case bijections, 16-way sharding, fork isolation with progress cell, line protocol to the driver"},
     {"name": "vsched", "path": "engine/vsched", "serves_properties": ["C05", "C07", "C19"],
      "kind_free_text": "cooperative scheduler by link-time interposition of pthread mutex/cond/create/join, futex syscall and clock_gettime + stateless DFS explorer with iterative deviation bounding, 16 forked workers sharing a work stack, determinism re-runs, deadlock/livelock/hang detection, replay of recorded choice sequences"},
+    {"name": "spin", "path": "engine/spin", "serves_properties": ["C19"],
+     "kind_free_text": "Promela model of thread::Queue at the granularity of vsched scheduling steps; Spin 6.5 explores all interleavings (safety), accepts every implementation schedule (impl->model) and emits every model path for scripted replay on the real code (model->impl); driver checks/C19/spin.py"},
     {"name": "driver", "path": "engine/driver", "serves_properties": ["C13"],
      "kind_free_text": "bin/check: builds harnesses from /repo's working tree (content-hash cache), runs tiers under a deadline, replays violations, applies known_findings.txt, writes evidence"},
 ]
